@@ -18,3 +18,4 @@ Definition k_flow_ncrypt_unprotect_secret : pfun :=
     ] [];
     SReturn (PCall "_decrypt_blob" [(PName "blob"); (PName "rk")])
   ] |}.
+Definition k_flow_ncrypt_unprotect_secret_defaults : list (string * pexp) := [("server", PNone); ("username", PNone); ("password", PNone); ("auth_protocol", (PStr [110; 101; 103; 111; 116; 105; 97; 116; 101])); ("cache", PNone)].
